@@ -765,6 +765,9 @@ def make_argmax(lo, hi, bv, val, valid):
     return d.f(to_z3(lo), to_z3(hi), *params)
 
 
+ARGMAX_CONGRUENCE = ["syntactic"]     # set per obligation from the contract option "argmax_congruence"
+
+
 def defined_function_ids():
     return set(SumDef.registry) | set(ExtDef.registry) | set(FirstDef.registry) | set(ArgmaxDef.registry)
 
@@ -804,13 +807,18 @@ def ext_axioms(terms):
     ams = [x for x in ground_subterms(terms).values() if z3.is_app(x) and x.decl().get_id() in ArgmaxDef.registry]
     for i_, x in enumerate(ams[:8]):
         for y in ams[i_ + 1:8]:
-            if x.decl().eq(y.decl()) or not (x.arg(0).eq(y.arg(0)) and x.arg(1).eq(y.arg(1))):
+            same_range = x.arg(0).eq(y.arg(0)) and x.arg(1).eq(y.arg(1))
+            if x.decl().eq(y.decl()) or not (same_range or ARGMAX_CONGRUENCE[0] == "semantic"):
                 continue
             dx, dy = ArgmaxDef.registry[x.decl().get_id()], ArgmaxDef.registry[y.decl().get_id()]
             sk = Fresh.int("sk")
-            ax.append(z3.Implies(z3.Implies(z3.And(x.arg(0) <= sk, sk < x.arg(1)),
-                                            z3.And(dx.at(dx.body, x, sk) == dy.at(dy.body, y, sk), dx.at(dx.valid, x, sk) == dy.at(dy.valid, y, sk))),
-                                 x == y))
+            agree = z3.Implies(z3.And(x.arg(0) <= sk, sk < x.arg(1)),
+                               z3.And(dx.at(dx.body, x, sk) == dy.at(dy.body, y, sk), dx.at(dx.valid, x, sk) == dy.at(dy.valid, y, sk)))
+            if not same_range:
+                # contract option "argmax_congruence": "semantic" - the two ranges need only be equal, not the same terms
+                # (a bound that is itself the result of a search appears under two function symbols)
+                agree = z3.And(x.arg(0) == y.arg(0), x.arg(1) == y.arg(1), agree)
+            ax.append(z3.Implies(agree, x == y))
     # ground instances of the minimality axiom of one First application at another application of the
     # same definition (what is needed to show that two searches return the same index)
     for apps in firsts.values():
@@ -1061,6 +1069,20 @@ PH2 = z3.Function("mul_sym_h2", RealS, RealS)
 PG = z3.Function("mul_sym", RealS, RealS, RealS)
 
 
+# canonical order of the factors of an abstracted product: by term id (default), or - contract option
+# "nl_factor_order": "symbol" - by function symbol first.  Products of five or more factors are abstracted as one
+# left-nested chain in that order (only 3 and 4 factors get their other association orders), so two instances of the same
+# expression at different index terms (code at i, specification at lo + c) only get the same chain if the order does not
+# depend on creation order.  Any order is sound: the abstraction is satisfied by the real product.
+NL_ORDER = ["id"]
+
+
+def _factor_key(c):
+    if NL_ORDER[0] == "symbol":
+        return ((c.decl().name() if z3.is_app(c) else ""), c.get_id())
+    return c.get_id()
+
+
 def abstract_nonlinear(fs, symmetric=False):
     _signed.clear()
     return _abstract_nonlinear(fs, symmetric)
@@ -1082,14 +1104,20 @@ def _abstract_nonlinear(fs, symmetric=False):
     def rb(t):
         k = t.get_id()
         if k in memo:
-            return memo[k]
+            return memo[k][1]
         keep.append(t)
         if z3.is_quantifier(t):
             n = t.num_vars()
             cs = [z3.Const(Fresh.name("qv"), t.var_sort(i)) for i in range(n)]
             body = z3.substitute_vars(t.body(), *reversed(cs))
             nb = rb(body)
-            r = z3.ForAll(cs, nb) if t.is_forall() else z3.Exists(cs, nb)
+            # explicit patterns (given by a contract for a hypothesis whose inferred patterns could loop) are kept
+            pats = []
+            for pi in range(t.num_patterns()):
+                pts = [rb(z3.substitute_vars(c, *reversed(cs))) for c in t.pattern(pi).children()]
+                pats.append(z3.MultiPattern(*pts) if len(pts) > 1 else pts[0])
+            r = (z3.ForAll(cs, nb, patterns=pats) if t.is_forall() else z3.Exists(cs, nb, patterns=pats)) if pats else \
+                (z3.ForAll(cs, nb) if t.is_forall() else z3.Exists(cs, nb))
         elif z3.is_app(t) and t.num_args() > 0:
             ch = [rb(c) for c in t.children()]
             kind = t.decl().kind()
@@ -1102,7 +1130,7 @@ def _abstract_nonlinear(fs, symmetric=False):
                         acc = MULFI(acc, c)
                     for nn in nums:
                         acc = nn * acc
-                    memo[k] = acc
+                    memo[k] = (t, acc)      # the key term is kept alive: z3 recycles the ids of freed terms
                     return acc
                 # flatten nested products and order the factors canonically (hash-consed ids): a*(b*c),
                 # (c*a)*b, ... all become the same application
@@ -1114,7 +1142,7 @@ def _abstract_nonlinear(fs, symmetric=False):
                     else:
                         flat.append(rb(c))
                 nums = [c for c in flat if isnum(c)]
-                rest = sorted((c for c in flat if not isnum(c)), key=lambda c: c.get_id())
+                rest = sorted((c for c in flat if not isnum(c)), key=_factor_key)
                 if len(rest) >= 2:
                     rest = [to_real(c) for c in rest]
                     acc = rest[0]
@@ -1136,7 +1164,7 @@ def _abstract_nonlinear(fs, symmetric=False):
                     r = t
         else:
             r = t
-        memo[k] = r
+        memo[k] = (t, r)          # (t kept alive, see above: a recycled id would alias an unrelated term)
         return r
     out = [rb(f) for f in fs]
     x, y = z3.Reals("x!c y!c")
